@@ -13,6 +13,7 @@ echo "== demo with change:"; PYTHONPATH=$wt /venv/bin/python demo.py >/tmp/seed_
 git stash push -q -- mido
 echo "== demo without change:"; PYTHONPATH=$wt /venv/bin/python demo.py >/tmp/seed_demo_without.txt 2>&1; echo "exit $?"; tail -1 /tmp/seed_demo_without.txt
 git stash pop -q
+export PYVC_SCRATCH_EVIDENCE=1     # /repo is patched while these checks run: their evidence must not replace the committed one
 cd /repo
 if ! git diff --quiet; then echo "/repo is dirty, refusing"; exit 9; fi
 git apply $out/patch.diff || { echo "patch does not apply to /repo"; exit 9; }
